@@ -59,6 +59,22 @@ struct State {
 static STATE: Mutex<Option<State>> = Mutex::new(None);
 static STEPS: std::sync::atomic::AtomicUsize = std::sync::atomic::AtomicUsize::new(0);
 
+static TAGS: Mutex<Vec<(usize, &'static str)>> = Mutex::new(Vec::new());
+
+/// Give a lock address a class name (e.g. "shard"); only recorded for managed threads.
+pub fn tag_lock(addr: usize, tag: &'static str) {
+    if is_managed() {
+        let mut t = TAGS.lock().unwrap();
+        if !t.iter().any(|x| x.0 == addr) {
+            t.push((addr, tag));
+        }
+    }
+}
+
+pub fn tag_of(addr: usize) -> Option<&'static str> {
+    TAGS.lock().unwrap().iter().find(|x| x.0 == addr).map(|x| x.1)
+}
+
 /// Number of grants made so far in the current run (a logical clock for managed threads).
 pub fn steps() -> usize {
     STEPS.load(std::sync::atomic::Ordering::SeqCst)
